@@ -80,6 +80,12 @@ func (a *vfAffinity) sentBy(sym string) string {
 		return a.g.ip("10.0.2.2") + ":5064"
 	case "s3":
 		return "client.example.com:5062"
+	case "s5": // the port left implicit: the default port 5060 is meant
+		return a.g.ip("10.0.2.1")
+	case "s6": // the same destination as s5, the default port written out
+		return a.g.ip("10.0.2.1") + ":5060"
+	case "s7":
+		return "client.example.com"
 	}
 	return a.g.ip("10.0.2.3") + ":5062"
 }
@@ -157,7 +163,7 @@ func TestVfAffinity(t *testing.T) {
 	defer tr.Close()
 	a := &vfAffinity{t: t, tr: tr, conns: map[string]*vfClient{}}
 	a.g = &vfGamma{base: vfIPBase(), rnd: vfRand(12)}
-	for _, sp := range [][2]interface{}{{"10.0.2.1", 5062}, {"10.0.2.2", 5064}, {"10.0.2.3", 5062}, {"10.0.2.9", 5062}, {"10.0.5.5", 5062}, {"10.0.5.5", 5064}} {
+	for _, sp := range [][2]interface{}{{"10.0.2.1", 5062}, {"10.0.2.2", 5064}, {"10.0.2.3", 5062}, {"10.0.2.9", 5062}, {"10.0.5.5", 5062}, {"10.0.5.5", 5064}, {"10.0.2.1", 5060}, {"10.0.2.9", 5060}} {
 		vfAllSinks.get(t, a.g.ip(sp[0].(string)), sp[1].(int))
 	}
 	rnd := vfRand(120)
@@ -182,7 +188,11 @@ func TestVfAffinity(t *testing.T) {
 				switch h.Op {
 				case "req":
 					c := bh.TxConn[h.T]
-					a.req(h.T, c, bh.SentBy[c], rp)
+					sb := bh.SentBy[c]
+					if k%4 == 1 { // the model's two sent-by values realised as one destination, its default port implicit / written out
+						sb = map[string]string{"s1": "s5", "s2": "s6"}[sb]
+					}
+					a.req(h.T, c, sb, rp)
 				case "prov":
 					a.resp(h.T, false, []int{100, 180, 183}[rnd.Intn(3)])
 				case "final":
@@ -200,7 +210,7 @@ func TestVfAffinity(t *testing.T) {
 		sb := make([]string, nc)
 		for j := range names {
 			names[j] = fmt.Sprintf("c%d", j+1)
-			sb[j] = []string{"s1", "s1", "s2", "s3", "s4"}[rnd.Intn(5)]
+			sb[j] = []string{"s1", "s1", "s2", "s3", "s4", "s5", "s5", "s6", "s7"}[rnd.Intn(9)]
 		}
 		recv := rnd.Intn(3) != 0
 		a.open(fmt.Sprintf("rand%d-recv%v", i, recv), recv, names)
